@@ -540,6 +540,13 @@ class DateDataParser:
 
         date_string = sanitize_date(date_string)
 
+        if date_formats:
+            # surrounding whitespace or a trailing colon must not keep the
+            # given formats from being tried before the heuristic parsers
+            res = parse_with_formats(date_string, date_formats, self._settings)
+            if res["date_obj"]:
+                return res
+
         for locale in self._get_applicable_locales(date_string):
             parsed_date = _DateLocaleParser.parse(
                 locale, date_string, date_formats, settings=self._settings
